@@ -64,11 +64,11 @@ def evidence(blk):
         ev["stale"] = any(t not in cur for t in blk.all)
     idx = {i for _, ix, _ in blk.parts for i in ix}
     ev["lost_bits"] = any(b not in idx for _, bits in blk.leaves for b in bits)
+    # a stored formula that is an ite rewriting (it cannot carry the name of the assertion it came from): among the
+    # extracted terms, or -- with minimisation, where the background is taken from the current assertions -- among those
     strs = {t: s for t, _, s in blk.parts}
-    if not blk.full and blk.split is not None:
-        for t, c in zip(blk.all, blk.split[1]):
-            if not c and ".ite" in strs.get(t, ""):
-                ev["ite_hidden"] = True
+    pool = list(blk.all) + (list(blk.current) if (blk.minimal and blk.current is not None) else [])
+    ev["ite_hidden"] = any(".ite" in strs.get(t, "") for t in pool)
     return ev
 
 
